@@ -340,6 +340,9 @@ def run(chk):
     chk.rule("R5", "R-TABLE + R-DOM: redirect status set and guards of the recursive send")
     st = status_tables(chk, prog)
     shared.header_order(chk, prog, "R2")
+    # every header name the serialiser can print parses back to the same header (a variant without a name prints an empty field name)
+    from . import c02
+    c02.header_table(chk, prog, "A")
     set_cookie(chk, prog)
     chunked_fixup(chk, prog)
     redirect_set(chk, prog, st)
